@@ -389,3 +389,61 @@ def row_has_nan(A, r, n):
 
 
 RECURSIVE.update({"count_lt": "int", "count_eq": "int", "count_gt": "int"})
+
+
+# ------------------------------------------------------------------ C16 regions
+def rg_before(y1, x1, y, x):
+    # row-major order of the scan
+    return y1 < y or (y1 == y and x1 < x)
+
+
+def rg_inb(y, x, rows, cols):
+    return 0 <= y and y < rows and 0 <= x and x < cols
+
+
+def rg_adj(n, dy, dx):
+    # (dy, dx) is an offset of the 4- / 8-neighbourhood
+    return (dy != 0 or dx != 0) and -1 <= dy and dy <= 1 and -1 <= dx and dx <= 1 and (n == 8 or dy == 0 or dx == 0)
+
+
+def rg_match(data, y, x, dy, dx, n, rows, cols):
+    # the cell at offset (dy, dx) is an n-neighbour inside the raster holding the same (non-NaN) value
+    return rg_adj(n, dy, dx) and rg_inb(y + dy, x + dx, rows, cols) and data[y + dy, x + dx] == data[y, x]
+
+
+def rg_link(A, data, y, x, dy, dx, n, rows, cols):
+    return (not rg_match(data, y, x, dy, dx, n, rows, cols)) or A[y + dy, x + dx] == A[y, x]
+
+
+def rg_closed_at(A, data, y, x, n, rows, cols):
+    # labelling A does not separate the cell from any n-neighbour of equal value
+    return (rg_link(A, data, y, x, -1, -1, n, rows, cols) and rg_link(A, data, y, x, -1, 0, n, rows, cols)
+            and rg_link(A, data, y, x, -1, 1, n, rows, cols) and rg_link(A, data, y, x, 0, -1, n, rows, cols)
+            and rg_link(A, data, y, x, 0, 1, n, rows, cols) and rg_link(A, data, y, x, 1, -1, n, rows, cols)
+            and rg_link(A, data, y, x, 1, 0, n, rows, cols) and rg_link(A, data, y, x, 1, 1, n, rows, cols))
+
+
+def rg_closed_back(A, data, y, x, n, rows, cols):
+    # ... from any *earlier* (row-major) n-neighbour of equal value
+    return (rg_link(A, data, y, x, -1, -1, n, rows, cols) and rg_link(A, data, y, x, -1, 0, n, rows, cols)
+            and rg_link(A, data, y, x, -1, 1, n, rows, cols) and rg_link(A, data, y, x, 0, -1, n, rows, cols))
+
+
+def rg_has_back(data, y, x, n, rows, cols):
+    return (rg_match(data, y, x, -1, -1, n, rows, cols) or rg_match(data, y, x, -1, 0, n, rows, cols)
+            or rg_match(data, y, x, -1, 1, n, rows, cols) or rg_match(data, y, x, 0, -1, n, rows, cols))
+
+
+def rg_share(A, data, y, x, dy, dx, n, rows, cols):
+    return rg_match(data, y, x, dy, dx, n, rows, cols) and A[y + dy, x + dx] == A[y, x]
+
+
+def rg_shares_back(A, data, y, x, n, rows, cols):
+    # the cell has the label of one of its earlier n-neighbours of equal value
+    return (rg_share(A, data, y, x, -1, -1, n, rows, cols) or rg_share(A, data, y, x, -1, 0, n, rows, cols)
+            or rg_share(A, data, y, x, -1, 1, n, rows, cols) or rg_share(A, data, y, x, 0, -1, n, rows, cols))
+
+
+def rg_separated(a, b):
+    # np.isclose-style matching (atol 1e-8, rtol 1e-5) coincides with equality on the values of the raster
+    return (not (isfinite(a) and isfinite(b))) or (not (abs(a - b) <= 1e-08 + 1e-05 * abs(b))) or a == b
